@@ -248,6 +248,8 @@ def run(tier, seed, replay_case=None):
     rep = core.Report(PROP, tier, seed)
     core.lean_build()
     aud = core.audit(PROP)
+    from vh import bridge
+    bridge.check(rep, PROP)
     drv = core.Driver()
     if replay_case is None or replay_case.get('table'):
         rows = core.run_sharded(lambda _r, _c, _e: impl_table(), seed, 1, shards=1, workers=2)
